@@ -784,7 +784,7 @@ def validOffset (k : Cls) (s : Str) : Bool :=
 def Node.valid (n : Node) : Bool :=
   if n.isXtrig then
     (match n.name with
-     | _ :: r => !r.isEmpty && r.all fun d => xtrigChars.contains d
+     | _ :: r => validName nodesCls r
      | [] => false) && n.offset.isEmpty && n.qual.isEmpty && !n.opt && !n.suicide
   else
     validName nodesCls n.name && validOffset nodesCls n.offset && n.qual.all fun d => nodesCls.qual.contains d
